@@ -2635,6 +2635,7 @@ package go_clipper2
 //@   assert after contributing#0 [a-minimum-always-has-a-left-bound] leftBound != nil || ((locMin.Vertex.flags & OpenStart) != None && (locMin.Vertex.flags & OpenEnd) != None)
 //@   assert after rightBound.windCount2#0 [the-right-bound-bounds-the-same-regions-as-the-left-bound] rightBound.windCount == leftBound.windCount && rightBound.windCount2 == leftBound.windCount2
 //@   assert after call:insertRightEdge#0 [the-right-bound-is-inserted-directly-right-of-the-left-bound] leftBound.nextInAEL == rightBound && rightBound.prevInAEL == leftBound
+//@   assert after call:isHorizontal#4 [a-contributing-open-path-end-starts-an-output-path-at-the-minimum-whether-or-not-its-first-edge-is-horizontal] (rightBound == nil && contributing) ==> (leftBound.outrec != nil && leftBound.outrec.isOpen && leftBound.outrec.pts != nil && leftBound.outrec.pts.pt == leftBound.bot)
 
 // the sweep's main loop (C17, C02): the horizontal segments collected on a scanline are turned into joins and
 // discarded before the sweep leaves that scanline - a segment that survived could later be paired with a segment of
